@@ -23,10 +23,12 @@ def _bits(bs):
 
 def impl_queries(m):
     """the same (q ...) value the model's op_queries produces, computed through the public API"""
-    fm = spec.build_fm(m)
-    q = build_queries(fm)
     import live
-    stale = [n for n in live.GHOST_NAMES + ("__never_there__",) if fm.get_feature_by_name(n) is not None]
+    fm = spec.build_fm(m)
+    # asked first: a lookup of an absent name in build_queries could refresh whatever a lookup is answered from
+    stale = [n for n in live.GHOST_NAMES if fm.get_feature_by_name(n) is not None]
+    q = build_queries(fm)
+    stale += [n for n in live.GHOST_NAMES + ("__never_there__",) if fm.get_feature_by_name(n) is not None]
     return q, spec.dump_fm(fm), stale
 
 
